@@ -56,16 +56,18 @@ def C01(ctx):
     ctx.only = ("K1.", "K4.reclaim-after-unlink", "HP.protocol", "HP.active-gather", "HP.delete-licensed", "HP.validate-after-protect",
                 "HE.protocol", "HE.active-gather", "HE.delete-licensed", "HE.era-after-load", "HE.exception-safety", "HE.retire", "HE.shared-slot",
                 "EBR.protocol", "EBR.orphans", "EBR.constants", "EBR.activity", "QSBR.protocol", "QSBR.constants", "QSBR.activity",
-                "STAMP.protocol", "STAMP.delete-licensed", "LFRC.")
+                "STAMP.protocol", "STAMP.delete-licensed", "LFRC.", "K3.", "K13.")
     k1_rules(ctx, "C01")
     reclaim.reclaim_after_unlink(ctx, [".hpp"])
     ctx.floor("K4.reclaim-after-unlink", 20)
     scheme_rules(ctx)
+    typestate.rules(ctx)
     return ("Decides structural necessary conditions of 'not destroyed while guarded', per scheme: publish-then-fence and scan order (fence, adopt abandoned "
             "nodes, gather, fence, reclaim) for hazard pointers/eras; validate-after-protect in acquire/acquire_if_equal (HP, LFRC) and era-after-load (HE); "
             "destruction control-dependent on the protection test (HP binary_search, HE era interval, stamp <= tail stamp, LFRC claim); epoch schemes: "
             "flag-fence-epoch order, three epochs, retire into the current epoch, orphan slot detached before the epoch that re-uses it is published; "
-            "LFRC counter modified by RMW only; exception safety of HE slot hand-over; every container reclaims only after a successful unlink; "
+            "LFRC counter modified by RMW only; exception safety of HE slot hand-over; guard typestate of every scheme (a non-empty guard always holds its "
+            "protection unit: region entry / slot / reference); every container reclaims only after a successful unlink; "
             "memory orders of all reclaimers.", "that the schemes are correct under all interleavings and weak executions (stamp-it's list protocol only through its annotated edges)")
 
 
@@ -167,6 +169,7 @@ def C10(ctx):
     ctx.floor("K4.reclaim-after-unlink", 3)
     vyukov.reader_validation(ctx)
     vyukov.marker_protocol(ctx)
+    vyukov.insert_publication(ctx)
     vyukov.locking(ctx)
     vyukov.grow_protocol(ctx)
     ctx.only_skip = ("VHM.iterator-lock",)
